@@ -10,7 +10,9 @@ IDENTS = ['a', 'b', 'x', 'foo', 'print', 'self', 'response', 'client', 'it', 'bu
           'camelCase', 'snake_case', 'r2', '_t']
 PUNCTS = list('+-*/=<>!&|:,.%^?@~')
 INT_LITS = ['0', '1', '42', '1_000', '0x1f', '3.14', '2u8']
-STR_LITS = ['"get"', '"a b"', '"{}"', '"a{b}c"', '"{{x}}"', '"semi;colon"', '"quote\\"d"', '"new\\nline"', '""', '"}{"', 'b"bytes"', "'c'", '"  padded  "']
+STR_LITS = ['"get"', '"a b"', '"{}"', '"a{b}c"', '"{{x}}"', '"semi;colon"', '"quote\\"d"', '"new\\nline"', '""', '"}{"', 'b"bytes"', "'c'", '"  padded  "',
+            # braces in literals that do not start with a plain double quote: raw, byte, char
+            'r"{{x}}"', 'r#"{"k": 1}"#', 'b"{}"', "'{'", 'r"{0}"', "'}'"]
 VARS = {'v0': ('"alpha"', 'alpha'), 'v1': ('42', '42'), 'v2': ('"Beta_2"', 'Beta_2'), 'v3': ('7', '7')}
 TVARS = {'t0': 'Vec<u8>', 't1': 'String', 't2': "&'static str"}
 TYPES = ['i32', 'String', 'bool', 'u64', 'Client', 'Self']
